@@ -30,7 +30,9 @@ func (prop) Assumptions() []string {
 	return []string{"every generated hello is well-formed for the service's parser (null compression offered, empty renegotiation_info)", "the handshake is not completed: the client reads the server flight and closes; the event of the failed handshake carries digest and server name"}
 }
 
-var sniPool = []string{"", "a.test", "b.test", "www.example.test", "x1.test", "long-name-for-sni.example.test", "c.test"}
+// host names are recorded as sent, upper case included (a trailing dot is not generated: RFC 6066 forbids it and
+// the TLS stack rejects such a hello as malformed before anything can be fingerprinted)
+var sniPool = []string{"", "a.test", "b.test", "www.example.test", "x1.test", "long-name-for-sni.example.test", "WWW.Example.TEST", "c.test"}
 
 var knownCiphers = []uint16{0x002f, 0x0035, 0x000a, 0x009c, 0x009d, 0xc013, 0xc014, 0xc02f, 0xc030, 0xc02b, 0xc02c, 0xcca8, 0xcca9, 0x0005, 0xc011, 0x003c, 0xc027, 0x1301, 0x1302, 0x1303, 0x00ff, 0x5600, 0x0000, 0xffff}
 var greaseVals = []uint16{0x0a0a, 0x1a1a, 0x2a2a, 0x3a3a, 0x4a4a, 0x5a5a, 0x6a6a, 0x7a7a, 0x8a8a, 0x9a9a, 0xaaaa, 0xbaba, 0xcaca, 0xdada, 0xeaea, 0xfafa}
